@@ -411,7 +411,8 @@ def check_validate(v, facts, res):
                 for y in cls_:
                     cb_ = facts.body(y[1])
                     ls_ = closure_result_lits(cb_, facts, True) if cb_ is not None else []
-                    if not ls_ or not all(l.kind == "call" and callee_name(l.term) in ("is_resolved", "contains") and l.truth is False for l in ls_):
+                    from ..conds import unaccepted
+                    if not ls_ or unaccepted(ls_, lambda l: l.kind == "call" and callee_name(l.term) in ("is_resolved", "contains") and l.truth is False):
                         return False
         return True
     whole = any(any(callee_name(c) == "keys" and c[2] and any(y[0] == "field" and y[2] == "revisions" for y in walk(c[2][0])) for c in iter_chain(x)) and
@@ -472,7 +473,7 @@ def _reach_helper_ok(h, facts, res):
     rl = set()
     t0 = du.local_term(0, 6)
     for x in walk(t0):
-        if x[0] == "var":
+        if x[0] == "var" and h.local_ty(x[1]) == "bool":
             rl.add(x[1])
     rl.add(0)
     for l in rl:
@@ -480,10 +481,19 @@ def _reach_helper_ok(h, facts, res):
             if d.kind != "assign" or d.place.proj:
                 continue
             t = du.rvalue_term(d.rv, 8)
-            if t[0] == "const" and t[1] == "bool" and t[2] is True:
+            tt_ = t
+            while tt_[0] == "var":
+                tt_ = tt_[3]
+            is_idx_cmp = tt_[0] == "binop" and tt_[1] == "Eq" and any(
+                y[0] == "const" and y[2] == 1 and contains_call(x, "index") for x, y in ((tt_[2], tt_[3]), (tt_[3], tt_[2])))
+            if (t[0] == "const" and t[1] == "bool" and t[2] is True) or is_idx_cmp:
+                # `true` under the two tests, or the value of `index == 1` itself under `parent is None`
                 n_true += 1
-                g_idx = g_par = False
+                g_idx = is_idx_cmp
+                g_par = False
                 for lit in lits_of(h, d.block, facts):
+                    if lit.kind == "variant" and lit.variants == {"None"} and contains_call(lit.term, "get_parent"):
+                        g_par = True
                     if lit.kind == "cmp" and lit.term[1] == "Eq" and lit.truth is True:
                         a, b_ = lit.term[2], lit.term[3]
                         for x, y in ((a, b_), (b_, a)):
